@@ -312,6 +312,37 @@ def generate_case(rnd, D, k):
     return kind, out
 
 
+def mixture_tie_case(rnd, D, k):
+    """Mixtures whose leading terms tie exactly (a component listed twice with equal weight; a symmetric pair seen from the midpoint):
+    the density is still the weighted sum of ALL component densities."""
+    d = rnd.choice([1, 2])
+    va = distgen.col([rnd.choice([0.25, 0.5, 1.0]) for _ in range(d)])
+    mua = distgen.col([distgen.dy(rnd, -2, 2) for _ in range(d)])
+    npdf = lambda x, mu, v: float(numpy.exp(-0.5 * numpy.sum((x - mu) ** 2 / v) - 0.5 * numpy.sum(numpy.log(2 * numpy.pi * v))))
+    if k % 2 == 0:
+        mub = mua + distgen.col([rnd.choice([1.5, -2.0, 3.0]) for _ in range(d)])
+        vb = distgen.col([rnd.choice([0.25, 0.5, 1.0]) for _ in range(d)])
+        w = rnd.choice([[0.3, 0.3, 0.4], [0.25, 0.25, 0.5], [0.4, 0.4, 0.2]])
+        comps = [(mua, va), (mua, va), (mub, vb)]
+        pts = [mua + distgen.col([distgen.dy(rnd, -1, 1) for _ in range(d)]) for _ in range(3)]
+        desc = f"Mixture of A, A, B with weights {w}"
+    else:
+        off = distgen.col([rnd.choice([0.5, 1.0, 2.0]) for _ in range(d)])
+        w = [0.5, 0.5]
+        comps = [(mua - off, va), (mua + off, va)]
+        pts = [mua.copy(), mua + distgen.col([0.0] * (d - 1) + [0.0])]
+        desc = f"symmetric Mixture with means mu -/+ {off.flatten().tolist()} seen from the midpoint"
+    obj = D.Mixture([D.Normal(m.copy(), v.copy()) for m, v in comps], list(w))
+    out = []
+    for x in pts:
+        want = -math.log(sum(wi * npdf(x, m, v) for wi, (m, v) in zip(w, comps)))
+        got = float(obj.misfit(x.copy()))
+        if not (abs(got - want) <= 1e-9 * max(1.0, abs(want))):
+            out.append(("mixture-density-tie", f"{desc}: misfit at {x.flatten().tolist()} is {got}, -log of the weighted sum of the component densities is {want}"))
+            break
+    return out
+
+
 def highdim_case(rnd, D, k):
     """Many dimensions and parameter values far from one: products of a hundred factors leave the range of binary64, sums of
     their logarithms do not.  misfit at the columns generate() itself produces must be the closed-form -log density."""
@@ -421,6 +452,10 @@ def run(tier, seed):
         dist["generate_kinds"][kind] = dist["generate_kinds"].get(kind, 0) + 1
         for key, what in probs:
             violations.append(Violation(key, what, {"generate_case": k, "kind": kind, "no_failing_input_found": key.startswith("generate-form-not-modelled")}))
+    for k in range(10 if tier == "quick" else 100):
+        dist["mixture_tie_cases"] = dist.get("mixture_tie_cases", 0) + 1
+        for key, what in mixture_tie_case(rnd, D, k):
+            violations.append(Violation(key, what, {"mixture_tie_case": k}))
     for k in range(10 if tier == "quick" else 100):
         dist["highdim_cases"] = dist.get("highdim_cases", 0) + 1
         for key, what in highdim_case(rnd, D, k):
